@@ -103,6 +103,8 @@ def build(ctx):
     g.trace('tr_crm', [('v', 'V6'), ('m', 'V6')], lambda v, m: SpatialVelocity(v).cross(SpatialVelocity(m)).A)
     g.trace('tr_crm_op', [('v', 'V6'), ('m', 'V6')], lambda v, m: (SpatialVelocity(v) @ SpatialVelocity(m)).A)
     g.trace('tr_crm_acc', [('v', 'V6'), ('m', 'V6')], lambda v, m: SpatialAcceleration(v).cross(SpatialVelocity(m)).A)
+    g.trace('tr_crm_accop', [('v', 'V6'), ('m', 'V6')], lambda v, m: SpatialVelocity(v).cross(SpatialAcceleration(m)).A)
+    g.trace('tr_crm_op_accop', [('v', 'V6'), ('m', 'V6')], lambda v, m: (SpatialVelocity(v) @ SpatialAcceleration(m)).A)
     g.trace('tr_crf_Frc', [('v', 'V6'), ('f', 'V6')], lambda v, f: SpatialVelocity(v).cross(SpatialForce(f)).A)
     g.trace('tr_crf_Mom', [('v', 'V6'), ('f', 'V6')], lambda v, f: SpatialVelocity(v).cross(SpatialMomentum(f)).A)
     g.trace('tr_fdot', [('f', 'V6'), ('m', 'V6')], lambda f, m: SpatialForce(f).dot(m))
@@ -311,8 +313,8 @@ def tables(ctx):
         rights = [(r,) + mk(r, n, rng)] if r is not None else [(nm, f(), None) for nm, f in NOTSV]
         for rn, y, B in rights:
             cat = ('force-left' if l not in MOTION else 'non-spatial-operand' if r is None else
-                   f'motion-x-{r}' if r in MOTION else 'motion-x-force')
-            if n != 1 and r is not None and not (l in MOTION and r == 'Acc'):      # the acceleration-operand defect is one root cause for every length
+                   f'motion-x-motion-{r}' if r in MOTION else 'motion-x-force')
+            if n != 1 and r is not None:
                 cat += '-multi'
             vok = None
             if B is not None and l in MOTION:
@@ -445,7 +447,9 @@ def oracle(ctx):
                      {'law': key, 'inputs_hex': hexl(inputs)})
 
     keys = list(CLS)
-    for i in range(N):
+    last = {}
+
+    def one(i):
         v, m, f = vec6(rng), vec6(rng), vec6(rng)
         if i % 4 == 0:                                   # equal magnitudes: cancellations are not hidden by a large operand
             s = log_uniform(rng, 1e-6, 1e6)
@@ -467,11 +471,11 @@ def oracle(ctx):
         # motion cross product
         vl, w, ml, mw, fl, fa = v[:3], v[3:], m[:3], m[3:], f[:3], f[3:]
         left = SpatialVelocity(v) if i % 3 else SpatialAcceleration(v)
-        x = left.cross(SpatialVelocity(m))
+        x = left.cross(SpatialVelocity(m) if i % 5 < 3 else SpatialAcceleration(m))
         cls_is('crm', x, SpatialAcceleration, np.r_[v, m])
         chk('crm', x.A, np.r_[np.cross(w, ml) + np.cross(vl, mw), np.cross(w, mw)], nv * nm, np.r_[v, m])
         chk('crm-matrix', x.A, crm_np(v) @ m, nv * nm, np.r_[v, m])
-        chk('crm-operator', (SpatialVelocity(v) @ SpatialVelocity(m)).A, crm_np(v) @ m, nv * nm, np.r_[v, m])
+        chk('crm-operator', (SpatialVelocity(v) @ (SpatialVelocity(m) if i % 2 else SpatialAcceleration(m))).A, crm_np(v) @ m, nv * nm, np.r_[v, m])
         # force cross product
         F = SpatialForce(f) if i % 2 else SpatialMomentum(f)
         y = left.cross(F)
@@ -495,7 +499,7 @@ def oracle(ctx):
         except Exception as ex:  # noqa
             ctx.fail(f'oracle:inertia:raises-{type(ex).__name__}', f"SpatialInertia(m, c, I) raises {type(ex).__name__}: {ex}",
                      {'inputs_hex': hexl([mass], c, I3)})
-            continue
+            return
         JA = np.asarray(J.A, float)
         ref = inertia_np(mass, c, I3)
         rot = np.max(np.abs(I3)) + mass * (c @ c)
@@ -542,12 +546,24 @@ def oracle(ctx):
             cls_is('se3-' + kk, r_, CLS[kk], np.r_[Tm.flatten(), q])
             M = X if kk in MOTION else X.T
             chk('se3-motion' if kk in MOTION else 'se3-force', r_.A, M @ q, np.abs(M) @ np.abs(q), np.r_[Tm.flatten(), q])
+        last.update(v=v, f=f, m=m)
+
+    for i in range(N):
+        try:
+            one(i)
+        except Exception as ex:  # noqa -- a law's call raised: a finding with the site of the exception, the sweep goes on
+            import traceback
+            fr = [t for t in traceback.extract_tb(ex.__traceback__) if 'spatialmath' in t.filename]
+            site = (fr[-1].name if fr else 'harness')
+            ctx.fail(f'oracle:raises-{type(ex).__name__}:{site}', f"an oracle law raised {type(ex).__name__}: {ex} (in {site}, iteration {i})",
+                     {'iteration': i, 'exception': f'{type(ex).__name__}: {ex}', 'site': site, 'traceback': traceback.format_exc()[-1200:]})
     # Twist3 * spatial vector (documented in __rmul__, not part of the property text): observed, not judged
     obs = observe(lambda: Twist3([1, 2, 3, 0.1, 0.2, 0.3]) * SpatialVelocity([1, 2, 3, 4, 5, 6]))
     ctx.stats['observed:Twist3*SpatialVelocity'] = kind_of(obs)
     obs = observe(lambda: SpatialVelocity([1, 2, 3, 4, 5, 6]) * SpatialInertia())
     ctx.stats['observed:SpatialVelocity*SpatialInertia'] = kind_of(obs)
-    ctx.sample({'kind': 'oracle', 'law': 'duality', 'v': v.tolist(), 'f': f.tolist(), 'm': m.tolist()})
+    if last:
+        ctx.sample({'kind': 'oracle', 'law': 'duality', 'v': last['v'].tolist(), 'f': last['f'].tolist(), 'm': last['m'].tolist()})
 
 
 # ----------------------------------------------------------------------------------------------- container / dtype forms
